@@ -116,6 +116,8 @@ class GenInliner:
         if binds is None or m.args.vararg or m.args.kwarg:
             return None
         gb = [copy.deepcopy(s) for s in real_body(m)]
+        if gb and not any(_own([x], (ast.Yield, ast.YieldFrom)) for x in _own(gb, (ast.While, ast.For))):
+            return self._expand_unlooped(loop, m, skip, binds, gb)
         if not gb or not isinstance(gb[-1], (ast.While, ast.For)) or gb[-1].orelse:
             return None
         pre, gl = gb[:-1], gb[-1]
@@ -160,6 +162,52 @@ class GenInliner:
                 return node if id(node) in keep else ast.copy_location(ast.Break(), node)
         gl = R2().visit(gl)
         new = inits + pre + [gl]
+        for n in new:
+            ast.copy_location(n, loop)
+            ast.fix_missing_locations(n)
+        return new
+
+    def _expand_unlooped(self, loop, m, skip, binds, gb):
+        """a generator whose yields are not inside loops (a few `yield X`, possibly under ifs): each one runs the caller's loop body
+        once, in order:  G's body with every `yield X` replaced by `T = X; BODY`.  BODY has no break / continue of this loop, G no
+        `return` (then leaving early needs no jump)."""
+        ys = _own(gb, (ast.Yield, ast.YieldFrom))
+        if not ys or len(ys) > 4 or _own(gb, (ast.YieldFrom, ast.Return, ast.Try, ast.With)):
+            return None
+        body = [copy.deepcopy(s) for s in loop.body]
+        if _loop_level(body, (ast.Continue, ast.Break)):
+            return None
+        self.counter += 1
+        tag = f"_{m.name.strip('_')}{self.counter}g"
+        names = norm._assigned_names(gb) | set(binds)
+        ren = {x: x + tag for x in names}
+        if skip:
+            ren.pop((m.args.posonlyargs + m.args.args)[0].arg, None)
+        if set(ren.values()) & norm._assigned_names(body):
+            return None
+        r_ = norm._Rename(ren)
+        gb = [r_.visit(s) for s in gb]
+        count = [0]
+        target = loop.target
+
+        class Y(ast.NodeTransformer):
+            def visit_Expr(self, node):
+                if isinstance(node.value, ast.Yield):
+                    if node.value.value is None:
+                        count[0] = -99
+                        return node
+                    count[0] += 1
+                    return [ast.copy_location(ast.Assign(targets=[copy.deepcopy(target)], value=node.value.value), node)] + [copy.deepcopy(b_) for b_ in body]
+                return node
+
+            def visit_FunctionDef(self, node):
+                return node
+            visit_Lambda = visit_AsyncFunctionDef = visit_FunctionDef
+        gb = [y for s in gb for y in (lambda r: r if isinstance(r, list) else [r])(Y().visit(s))]
+        if count[0] != len(ys) or _own(gb, (ast.Yield, ast.YieldFrom)):
+            return None         # a yield whose value is used, or one that is not a statement
+        inits = [ast.Assign(targets=[ast.Name(id=ren[p], ctx=ast.Store())], value=copy.deepcopy(a)) for p, a in binds.items() if p in ren]
+        new = inits + gb
         for n in new:
             ast.copy_location(n, loop)
             ast.fix_missing_locations(n)
